@@ -27,6 +27,7 @@ func fastDisabledEdge(from *ssa.BasicBlock, si int) bool {
 
 func checkC07(c *Ctx) {
 	l := c.L
+	checkIndexPurgeClosesIterator(c, "CONTRACT-purge-closes-iterator")
 	checkWorkingIterationMerges(c, "DOM-working-iteration")
 	checkSnapshotFlags(c, "FLOW-snapshot-flags")
 	checkNoDirectStoreWrites(c, "OWN-store-writes")
@@ -1050,5 +1051,55 @@ func checkStorageVersionWriters(c *Ctx, rule string) {
 	}
 	if n < 2 {
 		c.anchorMissing(rule, "fewer than 2 writers of nodeDB.storageVersion")
+	}
+}
+
+// checkIndexPurgeClosesIterator (C07, C09): the purge of a stale index deletes
+// through the flushing batch wrapper; the store contract forbids writes while
+// an iterator is open (MemDB blocks them for good), so no deletion may be
+// reachable from the creation of the purge's iterator without passing its
+// explicit Close.
+func checkIndexPurgeClosesIterator(c *Ctx, rule string) {
+	l := c.L
+	c.rule(rule, "the index purge deletes only after closing its iterator", 1)
+	fn := l.Func("", "*MutableTree.enableFastStorageAndCommitIfNotEnabled")
+	nfi := l.Func("", "NewFastIterator")
+	del := l.Func("", "*nodeDB.DeleteFastNode")
+	if fn == nil || nfi == nil || del == nil {
+		c.anchorMissing(rule, "enableFastStorageAndCommitIfNotEnabled / NewFastIterator / DeleteFastNode")
+		return
+	}
+	n := 0
+	for _, in := range callsIn(fn, predStatic(nfi)) {
+		itv, ok := in.(ssa.Value)
+		if !ok {
+			continue
+		}
+		n++
+		var bad ssa.Instruction
+		searchFrom([]point{after(in)}, func(x ssa.Instruction) bool {
+			cc := callCommon(x)
+			if cc == nil {
+				return false
+			}
+			if _, isDefer := x.(*ssa.Defer); !isDefer {
+				if g := staticCallee(cc); g != nil && g.Name() == "Close" && len(cc.Args) > 0 && stripTrivial(cc.Args[0]) == itv {
+					return true
+				}
+			}
+			if g := staticCallee(cc); g == del && bad == nil {
+				bad = x
+			}
+			return false
+		})
+		pos := l.ipos(in)
+		if bad != nil {
+			pos = l.ipos(bad)
+		}
+		c.decide(rule, "enableFastStorageAndCommitIfNotEnabled deletes stale fast nodes after closing the iterator", pos, bad == nil, "every deletion is behind the iterator's Close",
+			"the purge of the stale index deletes (through the batch wrapper, which writes the batch when it exceeds the flush threshold) while its iterator over the index is open: the store contract forbids that and MemDB blocks the write for good — with the default options LoadVersionForOverwriting / Load of a store with more than ~100 kB of index keys never returns")
+	}
+	if n == 0 {
+		c.anchorMissing(rule, "no NewFastIterator in enableFastStorageAndCommitIfNotEnabled")
 	}
 }
